@@ -32,6 +32,11 @@ def plan(ctx):
                     if field == 0 and exp == 1:
                         exp = 0          # an out-of-range index may also be refused outright
                     obs.append(l2_ob(be, k, m, hd, order, ln=unit + 1, force=1, ct=2, hdrdmg=(0, field, val), uf=True, expect=exp, tag="hdr"))
+    # the same index supplied twice, one copy damaged (first or last): the valid copy must be used
+    for be, k, m, hd in [(RS, 2, 1, 1)] + ([(RS, 2, 2, 2), (ISAV, 2, 1, 1)] if thorough else []):
+        unit = k * WB[be]
+        for order, mask in (([0, 1, 0], 1), ([0, 1, 0], 4), ([1, 2, 1], 1), ([2, 0, 2], 1), ([0, 0, 1, 2], 1)):
+            obs.append(l2_ob(be, k, m, hd, order, ln=unit + 1, force=1, ct=2, dmg=mask, uf=True, expect=1, tag="dmgdup"))
     return {"obs": obs,
             "assumptions": ["payload damage: CRCs abstracted to distinct constants per (fragment, region) - the outcome depends only on which checksums are equal - with the damaged payload checksumming to a different constant under both flavours (that the real CRCs detect the damage is C10); header edits: CRCs uninterpreted and re-sealed",
                             "out-of-range index edits: an outright error is accepted as well as decoding from the remaining valid fragments",
